@@ -2,7 +2,7 @@
 (translator validation, DESIGN.md 2.1)."""
 from sx import lifting
 
-lifting.install(lift=True)
+lifting.install(lift=True, eager_image=False)  # the test-suite stubs utils before importing .image
 
 
 def pytest_report_header(config):
